@@ -1,4 +1,4 @@
-\* known finding (known/C20.txt "bakrace"): the protocol of /repo HEAD with two parallel workers - NeverLost is violated
+\* vacuity guard: the protocol of bdbfbd6 (test <src>.bak, then rename) with two parallel workers races for the name - NeverLost MUST be violated (fixed by f452f5d)
 SPECIFICATION Spec
 CONSTANTS
   NWorkers = 2
